@@ -151,41 +151,38 @@ def gen_fairness(rng, n):
 # ---------------------------------------------------------------------------
 # formulas
 
-PCONST = [0.12]
-
-
-def _leaf(rng, atoms):
-    if rng.random() < PCONST[0]:
+def _leaf(rng, atoms, pconst=0.12):
+    if rng.random() < pconst:
         return ['bool', rng.random() < 0.5]
     return ['ap', rng.choice(atoms)]
 
 
-def gen_ctl(rng, depth, atoms):
+def gen_ctl(rng, depth, atoms, pc=0.12):
     if depth <= 0 or rng.random() < 0.2:
-        return _leaf(rng, atoms)
+        return _leaf(rng, atoms, pc)
     k = rng.choice(['Not', 'And', 'Or', 'Imply', 'Q', 'Q', 'Q'])
     if k == 'Not':
-        return ['Not', gen_ctl(rng, depth - 1, atoms)]
+        return ['Not', gen_ctl(rng, depth - 1, atoms, pc)]
     if k in ('And', 'Or'):
-        return [k] + [gen_ctl(rng, depth - 1, atoms)
+        return [k] + [gen_ctl(rng, depth - 1, atoms, pc)
                       for _ in range(rng.choice([2, 2, 3]))]
     if k == 'Imply':
-        return ['Imply', gen_ctl(rng, depth - 1, atoms),
-                gen_ctl(rng, depth - 1, atoms)]
+        return ['Imply', gen_ctl(rng, depth - 1, atoms, pc),
+                gen_ctl(rng, depth - 1, atoms, pc)]
     q = rng.choice(['A', 'E'])
     t = rng.choice(['X', 'F', 'G', 'U', 'R'])
     if t in ('X', 'F', 'G'):
-        return [q, [t, gen_ctl(rng, depth - 1, atoms)]]
-    return [q, [t, gen_ctl(rng, depth - 1, atoms),
-                gen_ctl(rng, depth - 1, atoms)]]
+        return [q, [t, gen_ctl(rng, depth - 1, atoms, pc)]]
+    return [q, [t, gen_ctl(rng, depth - 1, atoms, pc),
+                gen_ctl(rng, depth - 1, atoms, pc)]]
 
 
-def gen_path(rng, depth, atoms, budget, state_gen=None):
+def gen_path(rng, depth, atoms, budget, state_gen=None, pc=0.12):
     """LTL-style path formula with at most budget[0] temporal operators."""
     if depth <= 0 or rng.random() < 0.15:
         if state_gen is not None and rng.random() < 0.3:
             return state_gen()
-        return _leaf(rng, atoms)
+        return _leaf(rng, atoms, pc)
     ks = ['Not', 'And', 'Or', 'Imply']
     if budget[0] > 0:
         ks += ['X', 'F', 'G', 'U', 'R', 'X', 'F', 'G', 'U', 'R']
@@ -193,25 +190,25 @@ def gen_path(rng, depth, atoms, budget, state_gen=None):
     if k in ('X', 'F', 'G', 'U', 'R'):
         budget[0] -= 1
     if k in ('Not', 'X', 'F', 'G'):
-        return [k, gen_path(rng, depth - 1, atoms, budget, state_gen)]
+        return [k, gen_path(rng, depth - 1, atoms, budget, state_gen, pc)]
     if k in ('And', 'Or'):
-        return [k] + [gen_path(rng, depth - 1, atoms, budget, state_gen)
+        return [k] + [gen_path(rng, depth - 1, atoms, budget, state_gen, pc)
                       for _ in range(2)]
-    return [k, gen_path(rng, depth - 1, atoms, budget, state_gen),
-            gen_path(rng, depth - 1, atoms, budget, state_gen)]
+    return [k, gen_path(rng, depth - 1, atoms, budget, state_gen, pc),
+            gen_path(rng, depth - 1, atoms, budget, state_gen, pc)]
 
 
-def gen_ltl(rng, depth, atoms, tmax=3):
-    return ['A', gen_path(rng, depth, atoms, [tmax])]
+def gen_ltl(rng, depth, atoms, tmax=3, pc=0.12):
+    return ['A', gen_path(rng, depth, atoms, [tmax], None, pc)]
 
 
-def gen_ctls(rng, depth, atoms, tmax=3, qnest=2):
+def gen_ctls(rng, depth, atoms, tmax=3, qnest=2, pc=0.12):
     """CTL* state formula; `tmax` temporal operators in total."""
     budget = [tmax]
 
     def state(d, q):
         if d <= 0 or rng.random() < 0.15:
-            return _leaf(rng, atoms)
+            return _leaf(rng, atoms, pc)
         ks = ['Not', 'And', 'Or', 'Imply']
         if q > 0:
             ks += ['Q', 'Q', 'Q', 'Q']
@@ -224,22 +221,22 @@ def gen_ctls(rng, depth, atoms, tmax=3, qnest=2):
             return ['Imply', state(d - 1, q), state(d - 1, q)]
         return [rng.choice(['A', 'E']),
                 gen_path(rng, d - 1, atoms, budget,
-                         (lambda: state(d - 2, q - 1)))]
+                         (lambda: state(d - 2, q - 1)), pc)]
 
     f = state(depth, qnest)
     if f[0] in ('ap', 'bool'):
-        f = [rng.choice(['A', 'E']), gen_path(rng, depth - 1, atoms, budget)]
+        f = [rng.choice(['A', 'E']),
+             gen_path(rng, depth - 1, atoms, budget, None, pc)]
     return f
 
 
 def gen_formula(rng, logic, atoms, depth=None, tmax=3, pconst=0.12):
     depth = depth if depth is not None else rng.choice([1, 2, 3, 3, 4])
-    PCONST[0] = pconst
     if logic == 'CTL':
-        return gen_ctl(rng, depth, atoms)
+        return gen_ctl(rng, depth, atoms, pconst)
     if logic == 'LTL':
-        return gen_ltl(rng, min(depth, 3), atoms, tmax)
-    return gen_ctls(rng, depth, atoms, tmax)
+        return gen_ltl(rng, min(depth, 3), atoms, tmax, pconst)
+    return gen_ctls(rng, depth, atoms, tmax, 2, pconst)
 
 
 # ---------------------------------------------------------------------------
